@@ -221,6 +221,11 @@ def main():
     except weave.LostAnchor as e:
         inconclusive_exit(prop, a.repo, tier, 'weave: %s' % e)
     fn_props = {f['path']: f['props'] for f in report['functions']}
+    # functions whose annotations no longer applied (restructured): kept under contract only by the weaver.  A property
+    # whose chain contains one of them cannot be decided by the verifier in this run (never an alarm); the others can.
+    lost_here = [l for l in report.get('lost', []) if prop in l['props']]
+    if lost_here:
+        inconclusive_exit(prop, a.repo, tier, 'weave: ' + '; '.join(l['reason'] for l in lost_here)[:600])
 
     # 2. verify
     modules = None if tier == 'thorough' else cfg['modules']
@@ -361,6 +366,7 @@ def main():
             'named_obligations': [o['name'] for o in my_obls],
             'builtin_obligations': builtin,
             'failed_obligations': sorted(failed_names),
+            'functions_kept_under_contract_only_this_run': report.get('lost', []),
             'known_findings_not_counted': [{'obligation': k['obligation'], 'site': k['site'], 'what': k['what']} for k in known_hit],
             'solver_ms_total': times.get('smt', {}).get('total'),
             'verus_ms_total': times.get('total'),
